@@ -320,16 +320,147 @@ def attach_elements(o, rng, cls):
     return elems
 
 
-def traces(seed, n_lens, n_mirror=8, n_element=6):
+def build_shared(spec):
+    """the documented alternative form material=<BaseMaterial instance>: ONE object per medium, shared by every
+    surface that borders it (dummy / stop / image surfaces then have the same object on both sides)"""
+    from optiland.optic import Optic
+    from optiland.materials import IdealMaterial, Material
+    from optiland.physical_apertures import RadialAperture
+    cache = {}
+
+    def medium(m):
+        key = json.dumps(m)
+        if key not in cache:
+            if m == 'air':
+                cache[key] = IdealMaterial(n=1.0, k=0.0)
+            elif m[0] == 'ideal':
+                cache[key] = IdealMaterial(n=m[1], k=m[2])
+            else:
+                cache[key] = Material(*m[1:])
+        return cache[key]
+    o = Optic()
+    o.add_surface(index=0, radius=np.inf, thickness=spec['object_thickness'], material=medium('air'))
+    for i, sf in enumerate(spec['surfaces']):
+        kw = {k: sf[k] for k in ('radius', 'conic', 'dx', 'dy', 'rx', 'ry') if k in sf}
+        kw.setdefault('radius', np.inf)
+        if sf.get('aperture'):
+            kw['aperture'] = RadialAperture(r_max=sf['aperture'][0], r_min=sf['aperture'][1])
+        m = sf.get('material', 'air')
+        o.add_surface(index=i + 1, thickness=sf['thickness'], is_stop=bool(sf.get('is_stop')),
+                      material=('mirror' if m == 'mirror' else medium(m)), **kw)
+    last = spec['surfaces'][-1].get('material', 'air')
+    o.add_surface(index=len(spec['surfaces']) + 1, **({} if last == 'mirror' else {'material': medium(last)}))
+    o.set_aperture(spec['aperture'][0], spec['aperture'][1])
+    o.set_field_type(spec['field_type'])
+    for f in spec['fields']:
+        o.add_field(y=f[0], x=f[1], vx=f[2], vy=f[3])
+    for w, prim in spec['wavelengths']:
+        o.add_wavelength(w, is_primary=prim)
+    return o
+
+
+def shared_media_spec(rng, variant):
+    """refracting lens followed by dummy surfaces (stop / reference plane / image) in the SAME medium object"""
+    inf = float('inf')
+    n = rng.uniform(1.4, 1.9)
+    glass = ['ideal', n, 0.0]
+    surfs = [{'type': 'standard', 'radius': rng.uniform(25, 90), 'thickness': rng.uniform(2, 6), 'material': glass, 'is_stop': False}]
+    if variant == 'dummy-in-glass':
+        surfs.append({'type': 'standard', 'radius': inf, 'thickness': rng.uniform(1, 4), 'material': glass, 'is_stop': False})
+    surfs.append({'type': 'standard', 'radius': -rng.uniform(30, 120), 'thickness': rng.uniform(2, 8), 'material': 'air', 'is_stop': False})
+    surfs.append({'type': 'standard', 'radius': inf, 'thickness': rng.uniform(2, 8), 'material': 'air', 'is_stop': True})
+    if variant == 'two-dummies':
+        surfs.append({'type': 'standard', 'radius': rng.uniform(60, 200), 'thickness': rng.uniform(2, 8), 'material': 'air', 'is_stop': False})
+    surfs[-1]['thickness'] = rng.uniform(15, 40)
+    return {'object_thickness': inf, 'surfaces': surfs, 'aperture': ['EPD', rng.uniform(3.0, 8.0)], 'field_type': 'angle',
+            'fields': [[0.0, 0.0, 0.0, 0.0], [rng.uniform(5, 25), 0.0, 0.0, 0.0]], 'wavelengths': [[0.55, True]], 'telecentric': False}
+
+
+def aperture_spec(rng):
+    """singlet / doublet whose rear surface carries a physical aperture smaller than the beam: part of the bundle is clipped"""
+    inf = float('inf')
+    n = rng.uniform(1.45, 1.8)
+    epd = rng.uniform(8.0, 14.0)
+    surfs = [{'type': 'standard', 'radius': rng.uniform(40, 120), 'thickness': rng.uniform(3, 6), 'material': ['ideal', n, 0.0], 'is_stop': True},
+             {'type': 'standard', 'radius': -rng.uniform(60, 200), 'thickness': rng.uniform(20, 50), 'material': 'air', 'is_stop': False,
+              'aperture': [epd / 2 * rng.uniform(0.45, 0.8), 0.0]}]
+    if rng.random() < 0.5:
+        surfs.insert(1, {'type': 'standard', 'radius': inf, 'thickness': rng.uniform(1, 3), 'material': ['ideal', rng.uniform(1.5, 1.9), 0.0],
+                         'is_stop': False, 'aperture': [epd / 2 * rng.uniform(0.7, 0.95), epd / 2 * rng.choice([0.0, 0.15])]})
+    return {'object_thickness': inf, 'surfaces': surfs, 'aperture': ['EPD', epd], 'field_type': 'angle',
+            'fields': [[0.0, 0.0, 0.0, 0.0], [rng.uniform(2, 12), 0.0, 0.0, 0.0]], 'wavelengths': [[0.55, True]], 'telecentric': False}
+
+
+SHARED_VARIANTS = ['stop-in-air', 'dummy-in-glass', 'two-dummies']
+
+
+def plan(seed, n_lens, n_mirror, n_element, n_shared, n_aperture):
+    """list of lens jobs.  The corpus comes first and does not depend on the seed: one fixed case per class that
+    matters, so that a change of the random stream cannot lose it."""
+    import lensgen
+    jobs = []
+    crng = random.Random(4711)
+    for cls in MIRROR_CLASSES:
+        jobs.append({'layout': cls, 'spec': mirror_first_spec(crng, cls), 'coated': cls.startswith('mirror-then-fresnel'), 'corpus': True})
+    for cls in ELEMENT_CLASSES:
+        jobs.append({'layout': cls, 'spec': element_spec(crng, cls), 'coated': True, 'corpus': True})
+    for k, v in enumerate(SHARED_VARIANTS):
+        jobs.append({'layout': 'shared-media:' + v, 'spec': shared_media_spec(crng, v), 'coated': k % 2 == 1, 'builder': 'shared', 'corpus': True})
+    for k in range(2):
+        jobs.append({'layout': 'aperture-clips-bundle', 'spec': aperture_spec(crng), 'coated': k == 1, 'keep_apertures': True,
+                     'builder': 'shared' if k else 'plain', 'corpus': True})
+    rng = random.Random(seed)
+    for li in range(n_lens):
+        tilt = (li % 3 == 2)
+        job = {'layout': 'generic', 'coated': li % 2 == 1, 'tilt': tilt}
+        spec = lensgen.gen_spec(rng, nsurf=rng.choice([1, 2, 3, 4, 5]), allow=['plane', 'standard', 'conic'],
+                                mirrors=(li % 5 == 4), decenter=tilt)
+        strip_spec(spec, tilt)
+        if tilt:
+            sf = spec['surfaces'][rng.randrange(len(spec['surfaces']))]
+            sf['rx'] = rng.uniform(-0.15, 0.15); sf['ry'] = rng.uniform(-0.15, 0.15)
+        if li % 4 == 0 and not any(x.get('material') == 'mirror' for x in spec['surfaces']):
+            # an index-matched (dummy) surface: same medium on both sides -> k1 = k0 up to rounding
+            pos = rng.randrange(len(spec['surfaces']))
+            before = spec['surfaces'][pos - 1]['material'] if pos > 0 else 'air'
+            spec['surfaces'].insert(pos, {'type': 'standard', 'radius': rng.uniform(20, 150) * rng.choice([-1, 1]),
+                                          'thickness': rng.uniform(0.5, 3.0), 'is_stop': False, 'material': before})
+            job['matched'] = True
+            job['layout'] = 'index-matched'
+        elif any(x.get('material') == 'mirror' for x in spec['surfaces']):
+            job['layout'] = 'mirror-later'
+        # the same prescription reached through another public route
+        job['route'] = ['direct', 'handbuilt', 'reuse', 'roundtrip', 'direct'][li % 5] if not tilt else 'direct'
+        job['spec'] = spec
+        jobs.append(job)
+    for k in range(n_mirror):
+        cls = MIRROR_CLASSES[k % 4]
+        jobs.append({'layout': cls, 'spec': mirror_first_spec(rng, cls), 'coated': cls.startswith('mirror-then-fresnel')})
+    for k in range(n_element):
+        cls = ELEMENT_CLASSES[k % 3]
+        jobs.append({'layout': cls, 'spec': element_spec(rng, cls), 'coated': True})
+    for k in range(n_shared):
+        v = SHARED_VARIANTS[k % 3]
+        jobs.append({'layout': 'shared-media:' + v, 'spec': shared_media_spec(rng, v), 'coated': k % 2 == 0, 'builder': 'shared'})
+    for k in range(n_aperture):
+        jobs.append({'layout': 'aperture-clips-bundle', 'spec': aperture_spec(rng), 'coated': k % 2 == 0, 'keep_apertures': True,
+                     'builder': 'shared' if k % 3 == 2 else 'plain'})
+    return jobs
+
+
+def traces(seed, n_lens, n_mirror=8, n_element=6, n_shared=3, n_aperture=3):
     import lensgen
     from optiland.rays import PolarizedRays, PolarizationState, create_polarization
+    from optiland.rays.real_rays import RealRays
     from optiland.rays.ray_generator import RayGenerator
-    rng = random.Random(seed)
+    rng = random.Random(seed + 99)
     out = []
     rec = []
     launch = []
+    clipped = []
     orig = PolarizedRays.update
     orig_gen = RayGenerator.generate_rays
+    orig_clip = RealRays.clip
 
     def wrapped(self, jones_matrix=None):
         k0 = np.array([self.L0, self.M0, self.N0]).T.copy()
@@ -341,49 +472,33 @@ def traces(seed, n_lens, n_mirror=8, n_element=6):
 
     def gen_wrapped(self, *a, **kw):
         rays = orig_gen(self, *a, **kw)
-        # the directions actually launched, copied by the harness at launch time (never read back from the rays object)
-        launch.append(np.array([rays.L, rays.M, rays.N]).T.copy())
+        # the directions and intensities actually launched, copied by the harness at launch time
+        # (never read back from the rays object afterwards)
+        launch.append((np.array([rays.L, rays.M, rays.N]).T.copy(), np.array(rays.i, dtype=float).copy()))
         return rays
+
+    def clip_wrapped(self, condition):
+        clipped.append(np.array(condition, dtype=bool).copy())
+        return orig_clip(self, condition)
     PolarizedRays.update = wrapped
     RayGenerator.generate_rays = gen_wrapped
+    RealRays.clip = clip_wrapped
     try:
-        for li in range(n_lens + n_mirror + n_element):
-            layout = 'generic'
-            matched = False
+        for li, job in enumerate(plan(seed, n_lens, n_mirror, n_element, n_shared, n_aperture)):
+            layout, spec, coated = job['layout'], job['spec'], job['coated']
+            matched = bool(job.get('matched'))
+            tilt = bool(job.get('tilt'))
             elems = {}
-            if li >= n_lens + n_mirror:
-                layout = ELEMENT_CLASSES[(li - n_lens - n_mirror) % 3]
-                spec = element_spec(rng, layout)
-                tilt = False
-                coated = True
-            elif li >= n_lens:
-                layout = MIRROR_CLASSES[(li - n_lens) % 4]
-                spec = mirror_first_spec(rng, layout)
-                tilt = False
-                coated = layout.startswith('mirror-then-fresnel')
-            else:
-                tilt = (li % 3 == 2)
-                coated = (li % 2 == 1)
-                spec = lensgen.gen_spec(rng, nsurf=rng.choice([1, 2, 3, 4, 5]), allow=['plane', 'standard', 'conic'],
-                                        mirrors=(li % 5 == 4), decenter=tilt)
-                strip_spec(spec, tilt)
-                if tilt:
-                    s = spec['surfaces'][rng.randrange(len(spec['surfaces']))]
-                    s['rx'] = rng.uniform(-0.15, 0.15); s['ry'] = rng.uniform(-0.15, 0.15)
-                if li % 4 == 0 and not any(x.get('material') == 'mirror' for x in spec['surfaces']):
-                    # an index-matched (dummy) surface: same medium on both sides -> k1 = k0 up to rounding
-                    pos = rng.randrange(len(spec['surfaces']))
-                    before = spec['surfaces'][pos - 1]['material'] if pos > 0 else 'air'
-                    dummy = {'type': 'standard', 'radius': rng.uniform(20, 150) * rng.choice([-1, 1]),
-                             'thickness': rng.uniform(0.5, 3.0), 'is_stop': False, 'material': before}
-                    spec['surfaces'].insert(pos, dummy)
-                    matched = True
-                    layout = 'index-matched'
-                elif any(x.get('material') == 'mirror' for x in spec['surfaces']):
-                    layout = 'mirror-later'
+            route = job.get('route', 'direct')
             has_tilt = any(abs(s.get('rx', 0)) + abs(s.get('ry', 0)) > 0 for s in spec['surfaces'])
             try:
-                o = lensgen.build(spec)
+                if job.get('builder') == 'shared':
+                    o = build_shared(spec)
+                    route = 'shared-objects'
+                elif route != 'direct':
+                    o = lensgen.build_via(spec, route, rng)
+                else:
+                    o = lensgen.build(spec)
                 if layout in ELEMENT_CLASSES:
                     elems = attach_elements(o, rng, layout)
                 elif coated:
@@ -392,7 +507,7 @@ def traces(seed, n_lens, n_mirror=8, n_element=6):
                 st = PolarizationState(True, *raw)
                 o.set_polarization(st)
                 w = o.primary_wavelength
-                if layout in MIRROR_CLASSES or layout in ELEMENT_CLASSES:
+                if layout in MIRROR_CLASSES or layout in ELEMENT_CLASSES or job.get('builder') or job.get('keep_apertures'):
                     Hy = 1.0
                     Hx = rng.choice([0.0, rng.uniform(-0.6, 0.6)])      # skew launch: x field angle = Hx * max field
                 else:
@@ -400,7 +515,8 @@ def traces(seed, n_lens, n_mirror=8, n_element=6):
                     Hx = rng.uniform(-0.3, 0.3) if Hy else 0.0
                 del rec[:]
                 del launch[:]
-                dist = 'hexapolar' if matched else rng.choice(['line_y', 'line_x', 'hexapolar'])
+                del clipped[:]
+                dist = 'hexapolar' if (matched or job.get('keep_apertures')) else rng.choice(['line_y', 'line_x', 'hexapolar'])
                 rays = o.trace(Hx, Hy, w, num_rays=3, distribution=dist)
                 sg = o.surface_group.surfaces[1:]
                 media = [(float(np.ravel(sf.material_pre.n(w))[0]), float(np.ravel(sf.material_post.n(w))[0]),
@@ -410,7 +526,11 @@ def traces(seed, n_lens, n_mirror=8, n_element=6):
                 continue
             n = rays.x.size
             kfin = np.array([rays.L, rays.M, rays.N]).T
-            klaunch = launch[-1]
+            klaunch, ilaunch = launch[-1]
+            clip_mask = np.zeros(n, dtype=bool)
+            for c in clipped:
+                if c.shape == clip_mask.shape:
+                    clip_mask |= c
             ipol = rays.i.copy()
             # other states on the same accumulated matrices
             ints = {}
@@ -433,7 +553,11 @@ def traces(seed, n_lens, n_mirror=8, n_element=6):
             E1 = rays.get_output_field(E0)
             idx = list(range(n))
             rng.shuffle(idx)
-            for r in idx[:(8 if matched else 4)]:
+            if clip_mask.any():            # both kinds of rays: stopped by a physical aperture, and passing
+                idx = [r for r in idx if clip_mask[r]][:4] + [r for r in idx if not clip_mask[r]][:4]
+            else:
+                idx = idx[:(8 if matched else 4)]
+            for r in idx:
                 fin = bool(np.all(np.isfinite(kfin[r])) and np.all(np.isfinite(rays.p[r])))
                 surfs = [{'k0': [float(x) for x in k0[r]], 'k1': [float(x) for x in k1[r]],
                           'J': None if J is None else cflat(J[r])} for (k0, k1, J, _) in rec]
@@ -443,7 +567,8 @@ def traces(seed, n_lens, n_mirror=8, n_element=6):
                         'klaunch': [float(x) for x in klaunch[r]], 'kfinal': [float(x) for x in kfin[r]],
                         'klaunch_stored': [float(rays._L0[r]), float(rays._M0[r]), float(rays._N0[r])],
                         'surfs': surfs, 'P': cflat(rays.p[r]), 'ipol': float(ipol[r]), 'iunpol': float(iun[r]),
-                        'i0': float(rays._i0[r]), 'ints': {k: float(v[r]) for k, v in ints.items()},
+                        'i0': float(ilaunch[r]), 'i0_stored': float(rays._i0[r]), 'clipped': bool(clip_mask[r]),
+                        'route': route, 'corpus': bool(job.get('corpus')), 'ints': {k: float(v[r]) for k, v in ints.items()},
                         'Edotk': float(abs(np.sum(E1[r] * kfin[r]))), 'E1': cflat(E1[r]), 'complex_P': float(np.max(np.abs(np.imag(rays.p[r])))) if fin else 0.0}
                 # ---- independent reference for the STATED states, from the launch direction copied at launch ----
                 if fin and len(rec) == len(media) and abs(klaunch[r][1]) + abs(klaunch[r][2]) > 1e-9:
@@ -489,6 +614,7 @@ def traces(seed, n_lens, n_mirror=8, n_element=6):
     finally:
         PolarizedRays.update = orig
         RayGenerator.generate_rays = orig_gen
+        RealRays.clip = orig_clip
     return out
 
 
@@ -640,7 +766,8 @@ def main():
         res['named'] = named_cases()
         res['plates'] = wave_plates(rng, 12)
     if 'traces' in job['what']:
-        res['traces'] = traces(job['seed'] + 1, job['n_lens'], job.get('n_mirror', 8), job.get('n_element', 6))
+        res['traces'] = traces(job['seed'] + 1, job['n_lens'], job.get('n_mirror', 8), job.get('n_element', 6),
+                               job.get('n_shared', 3), job.get('n_aperture', 3))
     if 'oracles' in job['what']:
         c, f = oracles(job['seed'] + 2, job['n_oracle'])
         res['oracles'] = {'count': c, 'fails': f}
